@@ -40,6 +40,7 @@ func (c *vlru) access(k int) bool {
 type vcacheAside interface {
 	read(k int) bool // Get; on a miss the value is stored (or loaded)
 	insert(k int)
+	wait() // Wait(): the policy has applied everything written so far
 	close()
 }
 type vplain struct{ c *Cache[int, int] }
@@ -52,6 +53,7 @@ func (p vplain) read(k int) bool {
 	return false
 }
 func (p vplain) insert(k int) { p.c.Set(k, k, 1) }
+func (p vplain) wait()        { p.c.Wait() }
 func (p vplain) close()       { p.c.Close() }
 
 type vloading struct {
@@ -65,6 +67,7 @@ func (p vloading) read(k int) bool {
 	return *p.loads == before
 }
 func (p vloading) insert(k int) { p.c.Set(k, k, 1) }
+func (p vloading) wait()        { p.c.Wait() }
 func (p vloading) close()       { p.c.Close() }
 
 func vmkCache(kind int, size int) vcacheAside {
@@ -143,6 +146,11 @@ func TestVerifRootAdmission(t *testing.T) {
 							vconcurrentPhase(c, size, seed0+int64(size), func(r *rand.Rand) int { return r.Intn(hot) }, 100-readPct)
 						}
 						n := 40 * size
+						if n < 20000 {
+							// reads reach the policy through 16-slot stripes (4 per P): with few operations a tiny cache's hot
+							// set has hardly been recorded at all, and the measurement would be of luck, not of admission
+							n = 20000
+						}
 						oneoff := 2_000_000
 						hits, reads := 0, 0
 						for i := 0; i < n; i++ {
@@ -200,6 +208,9 @@ func TestVerifRootAdmission(t *testing.T) {
 					}
 					lru := newVLRU(size)
 					n := 60 * size
+					if n < 20000 {
+						n = 20000
+					}
 					hc, hl, cnt := 0, 0, 0
 					for i := 0; i < n; i++ {
 						lo := draw(r)
@@ -353,6 +364,12 @@ func TestVerifRootAdmission(t *testing.T) {
 			mix := func(n int, insertPct int) (int, int) {
 				hits, reads := 0, 0
 				for i := 0; i < n; i++ {
+					if i%64 == 63 {
+						// keep the policy in step with the workload: on a starved machine the maintenance goroutine applies the
+						// inserts in long bursts, the climber then sees samples of hits only and samples of misses only and
+						// swings the window with full steps - an artefact of the starvation, not of the admission policy
+						c.wait()
+					}
 					if r.Intn(100) < insertPct {
 						oneoff++
 						c.insert(oneoff)
@@ -421,3 +438,4 @@ func b2i(b bool) int {
 	}
 	return 0
 }
+
